@@ -12,7 +12,8 @@ G: every transition is printed as a program with the level-A prediction after ev
    harness (vh_span/c18_tp) runs it on Runtime::build(recording emitter,
    TraceparentFilter::new_with_sampler(scripted)[.and_when(in_sampled_trace_filter(true))],
    TraceparentCtxt<ThreadLocalCtxt>, counter clock, counter rng), spans through real macro
-   expansions, headers through their text form, one OS thread per model thread, and compares
+   expansions and every completion path (drop, complete(), complete_with() by hand, ok_lvl /
+   err_lvl on Ok and Err results, sync and async), headers through their text form, one OS thread per model thread, and compares
    after every step: the sampler invocation log, the records that reached the emitter, and
    Traceparent::current() (and its format/parse round trip) on every thread.
 """
